@@ -3,7 +3,7 @@ program with the Lean model, run the compiled lexers, the model interpreter and 
 on the same cases, and record, per property, where they differ. Results are cached per state of
 /repo's working tree, tier and seed (so the 18 checks share one corpus build and still rebuild
 whenever /repo changes)."""
-import os, sys, json, random, shutil, time, hashlib, atexit, tempfile
+import re, os, sys, json, random, shutil, time, hashlib, atexit, tempfile
 
 HERE = os.path.dirname(os.path.abspath(__file__))
 sys.path.insert(0, HERE)
@@ -473,7 +473,30 @@ def run_pipeline(tier, seed, log=lambda s: None):
     crate_of = {nm: st.get('crate') for nm, st in status.items()}
     # second expansion (determinism): cargo check into another dump dir
     dump2 = os.path.join(work, 'dump2')
-    dbl = [d for d in progs if status[d['name']]['build'] == 'ok'][: p['double_expand']]
+    built = [d for d in progs if status[d['name']]['build'] == 'ok']
+    if len(built) <= p['double_expand']:
+        dbl = built
+    else:
+        # which definitions are expanded a second time: those whose expansion has the most separately emitted items (search tables, states,
+        # action and context functions — an iteration order that is not reproducible can only show where two or more such items exist), the
+        # first few of the fixed corpus, and an even spread over the rest
+        def richness(d):
+            dd0 = corpus.split_dump(corpus.read_dump(dump, d['name']))
+            if not dd0:
+                return 0
+            n_tables = len([l for l in dd0['code'] if l.startswith('CODE table')])
+            n_ctxfn = len([l for l in dd0['code'] if l.startswith('CODE ctxfn')])
+            # two or more emitted tables / context functions first (their relative order is what can vary), then size
+            return 1000 * min(n_tables, 4) + 200 * min(n_ctxfn, 4) + len([l for l in dd0['body'] if l.startswith('state ')])
+        k = p['double_expand']
+        ranked = sorted(built, key=richness, reverse=True)
+        pick, seen = [], set()
+        for d in ranked[: k // 2] + built[: k // 4] + built[:: max(1, len(built) // (k // 4 + 1))]:
+            if d['name'] not in seen and len(pick) < k:
+                seen.add(d['name'])
+                pick.append(d)
+        dbl = pick
+        log('second expansion of %d definitions; richest: %s' % (len(dbl), ' '.join('%s(%d)' % (d['name'], richness(d)) for d in ranked[:6])))
     double = {}
     if dbl:
         ws2 = os.path.join(work, 'ws2')
